@@ -238,7 +238,7 @@ func c06IncludedDefaultUnit(tier string) *Unit {
 
 func c06Units(tier string) []*Unit {
 	var us []*Unit
-	us = append(us, c06IncludeUnit(tier), c06IncludedDefaultUnit(tier))
+	us = append(us, c06IncludeUnit(tier), c06IncludedDefaultUnit(tier), c06SpellingsUnit(), c06SameDepTwiceUnit())
 	specs := c06Specs()
 	var names []string
 	for k := range specs {
@@ -270,4 +270,56 @@ func c06Units(tier string) []*Unit {
 		}
 	}
 	return us
+}
+
+// One when_changed task of the root Taskfile, referenced with identical variables by its plain
+// name (root) and as a ':'-prefixed root reference (included Taskfile): one execution.
+func c06SpellingsUnit() *Unit {
+	files := map[string]string{
+		"Taskfile.yml": "version: '3'\nincludes:\n  inc: ./inc.yml\ntasks:\n  root:\n    cmds:\n      - task: gen\n        vars: {X: '1'}\n      - task: inc:user\n      - task: gen\n        vars: {X: '1'}\n" +
+			"  gen:\n    run: when_changed\n    cmds:\n      - printf '%s\\n' 'P|gen|0|=|X={{.X}}'\n",
+		"inc.yml": "version: '3'\ntasks:\n  user:\n    deps:\n      - task: ':gen'\n        vars: {X: '1'}\n    cmds:\n      - task: ':gen'\n        vars: {X: '1'}\n      - printf '%s\\n' 'P|inc:user|1|@|'\n",
+	}
+	sc := &vlab.Scenario{Name: "when_changed-referenced-by-name-and-as-root-reference/cinf", Files: files, Calls: []vlab.CallSpec{{Task: "root"}}}
+	return &Unit{Name: sc.Name, Sc: sc, Bound: 1, Prune: true, Weight: 1, Check: func(x *vlab.Exec) []vlab.Violation {
+		out := generic("C06", x)
+		n := 0
+		for _, e := range vlab.ParseTrace(x.Trace) {
+			if e.K == 'S' && e.Task == "gen" {
+				n++
+			}
+		}
+		if n > 1 {
+			out = append(out, vlab.V("C06", "when_changed_repeated", "name_and_root_reference", fmt.Sprintf("run: when_changed task gen executed %d times for the single variable set X=1 (referenced as gen and as :gen)", n)))
+		}
+		if x.Code == 0 && n == 0 {
+			out = append(out, vlab.V("C06", "when_changed_missing_execution", "name_and_root_reference", "gen never executed"))
+		}
+		if x.Code != 0 {
+			out = append(out, vlab.V("C06", "spurious_failure", "name_and_root_reference", fmt.Sprintf("status %d (%s)", x.Code, firstN(x.ErrStr, 100))))
+		}
+		return out
+	}}
+}
+
+// A task with the default run mode listed twice in the deps of one task with equal variables
+// (and as two items of a for loop): it executes once per reference.
+func c06SameDepTwiceUnit() *Unit {
+	files := map[string]string{
+		"Taskfile.yml": "version: '3'\ntasks:\n  root:\n    deps: [s, s]\n    cmds:\n      - task: looped\n  looped:\n    deps:\n      - for: [x, x]\n        task: s\n  s:\n    cmds:\n      - printf '%s\\n' 'P|s|0|=|'\n",
+	}
+	sc := &vlab.Scenario{Name: "always-task-listed-twice-in-deps/cinf", Files: files, Calls: []vlab.CallSpec{{Task: "root"}}}
+	return &Unit{Name: sc.Name, Sc: sc, Bound: 1, Prune: true, Weight: 1, Check: func(x *vlab.Exec) []vlab.Violation {
+		out := generic("C06", x)
+		n := 0
+		for _, e := range vlab.ParseTrace(x.Trace) {
+			if e.K == 'S' && e.Task == "s" {
+				n++
+			}
+		}
+		if x.Code != 0 || n != 4 {
+			out = append(out, vlab.V("C06", "always_count", "same_dep_twice", fmt.Sprintf("task s (default run mode) is referenced 4 times (twice in deps, two equal loop items) and executed %d times (status %d %s)", n, x.Code, firstN(x.ErrStr, 80))))
+		}
+		return out
+	}}
 }
